@@ -3,6 +3,7 @@ CONSTANTS
   TruncateBytesThenDecode = FALSE
   StopTimerNeedsFloat = TRUE
   RecorderConversionPartial = FALSE
+  ResultBoundAfterValidationOnly = FALSE
 INVARIANT NonInterference
 INVARIANT ObserversTotal
 INVARIANT StatsOnce
